@@ -45,6 +45,13 @@ impl WalPathManager {
 
     pub(crate) fn create_new_file(&self) -> std::io::Result<String> {
         self.ensure_root()?;
+        #[cfg(walrus_verif)]
+        if crate::wal::verif_hooks::io_event(crate::wal::verif_hooks::IO_FILE_CREATE) {
+            return Err(std::io::Error::new(
+                std::io::ErrorKind::Other,
+                "injected file creation failure",
+            ));
+        }
         // Never truncate an existing WAL file: after a restart the wall clock can land on a
         // name that is already taken (names are bumped past the clock within one process, and
         // the clock may step back). `now_millis_str` is strictly increasing, so this terminates.
